@@ -186,6 +186,31 @@ def r45_closures(s, file, log):
     return s
 
 
+def r4b_for_mut_patterns(s, file, log):
+    """for (PAT) in X.iter_mut() {  ->  for q__N in X.iter_mut() { let (PAT) = q__N;
+    (Verus rejects a `mut ref` binding in a for-loop pattern once the loop carries an invariant)"""
+    n = 0
+    while True:
+        m = rp.mask(s)
+        hit = None
+        for lp in rp.find_loops(m, 0, len(m)):
+            if lp.kind != 'for':
+                continue
+            hm = re.match(r'for\s*(\(.*?\))\s+in\b(.*)$', m[lp.kw:lp.open], re.S)
+            if hm and '.iter_mut()' in hm.group(2):
+                hit = (lp, hm)
+                break
+        if not hit:
+            break
+        lp, hm = hit
+        n += 1
+        name = 'q__%d' % n
+        pat = s[lp.kw + hm.start(1):lp.kw + hm.end(1)]
+        log.add('R4b:for-mut-pattern', file, rp.line_of(s, lp.kw), pat)
+        s = s[:lp.kw + hm.start(1)] + name + s[lp.kw + hm.end(1):lp.open + 1] + ' let %s = %s;' % (pat, name) + s[lp.open + 1:]
+    return s
+
+
 def r5_unnamed_params(s, file, log):
     cnt = [0]
 
@@ -196,7 +221,7 @@ def r5_unnamed_params(s, file, log):
 
 
 def r6_adaptors(s, file, log):
-    for name in ('chain', 'cloned', 'enumerate', 'sum', 'skip_while'):
+    for name in ('chain', 'cloned', 'enumerate', 'sum', 'map'):
         s = _sub(s, r'\.' + name + r'\s*(\(|::<)', '.vx_' + name + r'\1', 'R6:' + name, file, log)
     return s
 
@@ -317,6 +342,7 @@ def extract_file(repo_src, file, log):
     s = r3_mut_self(s, file, log)
     s = r8_rand_vec(s, file, log)      # before closure rewriting (matches |_|)
     s = r45_closures(s, file, log)
+    s = r4b_for_mut_patterns(s, file, log)
     s = r5_unnamed_params(s, file, log)
     s = r9_endless(s, file, log)
     s = r6_adaptors(s, file, log)
